@@ -104,3 +104,44 @@ func VerifC24_LeafRebuild() {
 	verifAssert(n.Hash() == inc, "a leaf rebuilt from its keys and value hashes has the hash it had in memory")
 	verifReach("end")
 }
+
+// inner nodes: the hash after RebuildMiniMerkle depends only on the child
+// hashes the node holds now, whatever consistent heap an earlier occupancy
+// left behind (a node that lost or gained children at the end, or had child
+// hashes replaced, before the rebuild)
+func VerifC24_InnerRebuildFromStale() {
+	n := &InnerNode{}
+	n.miniTree = NewMiniMerkle()
+	// earlier state: k0 children, kept consistent through SetSlot
+	k0 := 1 + verifChoose("before", 4)
+	var old [4]Hash
+	for i := 0; i < k0; i++ {
+		copy(old[i][:], verifBytes("old", HashSize))
+		n.childHashes[i] = old[i]
+		n.miniTree.SetSlot(i, old[i])
+	}
+	// now: k children; a child either keeps its earlier hash or has a new one
+	k := 1 + verifChoose("now", 4)
+	for i := 0; i < B; i++ {
+		n.childHashes[i] = Hash{}
+	}
+	for i := 0; i < k; i++ {
+		if i < k0 && verifChoose("same", 2) == 1 {
+			n.childHashes[i] = old[i]
+		} else {
+			copy(n.childHashes[i][:], verifBytes("new", HashSize))
+		}
+	}
+	n.numKeys = int16(k - 1)
+	n.RebuildMiniMerkle()
+
+	fresh := &InnerNode{}
+	fresh.miniTree = NewMiniMerkle()
+	for i := 0; i < k; i++ {
+		fresh.childHashes[i] = n.childHashes[i]
+	}
+	fresh.numKeys = int16(k - 1)
+	fresh.RebuildMiniMerkle()
+	verifAssert(n.Hash() == fresh.Hash(), "an inner node rebuilt in place has the hash of a freshly built node with the same children")
+	verifReach("end")
+}
